@@ -180,6 +180,8 @@ def _wrap(arg, how, sf=None, x=None):
         return _MissingDict(arg)
     if how == "strsub_keys":       # a plain dict whose keys are instances of a str subclass
         return {(_StrSub(k) if isinstance(k, str) else k): v for k, v in arg.items()}
+    if how == "strenum_keys":      # ... of a str subclass whose __str__ is not its content (class X(str, Enum) idiom)
+        return {(_StrTagged(k) if isinstance(k, str) else k): v for k, v in arg.items()}
     if how == "intsub_vals":       # ... whose values are instances of an int subclass
         return {k: (_IntSub(v) if type(v) is int else v) for k, v in arg.items()}
     # not dicts at all (the documented argument is a str or a dict): a read-only view of the caller's
@@ -202,6 +204,14 @@ class _StrSub(str):
 
 class _IntSub(int):
     pass
+
+
+class _StrTagged(str):
+    def __str__(self):
+        return "Element." + str.__str__(self)
+
+    def __repr__(self):
+        return "<Element %s>" % str.__str__(self)
 
 
 NONDICT_WRAPS = ("mappingproxy", "userdict", "pairs_iter", "pairs_list")
